@@ -24,6 +24,48 @@ var props = map[string]*prop{}
 
 func register(id string, p *prop) { props[id] = p }
 
+// extractors: the translator half of the tie (DESIGN §2.2a). An extractor reads /repo's CURRENT sources
+// (go/parser over files under repoDir, or reflection over the linked packages) and writes generated Lean
+// data files into outDir. It must fail closed: an AST shape it does not recognise is an error.
+var extractors = map[string]func(repoDir, outDir string) error{}
+
+func registerExtractor(name string, f func(repoDir, outDir string) error) { extractors[name] = f }
+
+func repoDir() string {
+	if d := os.Getenv("VERIF_REPO"); d != "" {
+		return d
+	}
+	return "/repo"
+}
+
+func runExtract(args []string) {
+	out := ""
+	var names []string
+	for i := 0; i < len(args); i++ {
+		if args[i] == "--out" && i+1 < len(args) {
+			out = args[i+1]
+			i++
+		} else {
+			names = append(names, args[i])
+		}
+	}
+	if out == "" {
+		fmt.Fprintln(os.Stderr, "usage: vh extract <name>... --out <dir>")
+		os.Exit(2)
+	}
+	for _, n := range names {
+		f, ok := extractors[n]
+		if !ok {
+			fmt.Fprintln(os.Stderr, "unknown extractor", n)
+			os.Exit(2)
+		}
+		if err := f(repoDir(), out); err != nil {
+			fmt.Fprintf(os.Stderr, "extract %s: %v\n", n, err)
+			os.Exit(1)
+		}
+	}
+}
+
 func seed() uint64 {
 	s, err := strconv.ParseUint(os.Getenv("VERIF_SEED"), 10, 64)
 	if err != nil {
@@ -52,8 +94,12 @@ func safe(f func() string) (out string) {
 
 func main() {
 	if len(os.Args) < 3 {
-		fmt.Fprintln(os.Stderr, "usage: vh (gen|drive) <Cnn>")
+		fmt.Fprintln(os.Stderr, "usage: vh (gen|drive) <Cnn> | vh extract <name>... --out <dir>")
 		os.Exit(2)
+	}
+	if os.Args[1] == "extract" {
+		runExtract(os.Args[2:])
+		return
 	}
 	p, ok := props[os.Args[2]]
 	if !ok {
